@@ -149,6 +149,13 @@ func TestVX_C15_Encoding(t *testing.T) {
 			run(b, "noncanonical-plus-p")
 		}
 	}
+	for pi, P := range sm2ref.SmallXPoints(6) {
+		run(encRef(P), fmt.Sprintf("smallx%d:canonical", pi))
+		b := encRef(P)
+		copy(b[1:33], sm2ref.Bytes32(new(big.Int).Add(P.X, sm2ref.P)))
+		run(b, fmt.Sprintf("smallx%d:x+p", pi))
+		found++
+	}
 	r.Set("noncanonical_plus_p_points_found", found) // 2^256-p ~ 2^224: such points cannot be found by scanning; recorded, not required
 	nv := 2
 	if vx.Thorough() {
